@@ -538,6 +538,7 @@ type SchedEntry struct {
 	Phase int    `json:"phase"`
 	Gor   int    `json:"gor"`
 	Auto  bool   `json:"auto"`
+	Wake  bool   `json:"wake"` // second phase of cond.Wait: consumed natively by the wrapped Locker's Lock
 }
 
 // scheduleEntries lists the fired transitions under a model for the native replay controller.
@@ -546,8 +547,9 @@ func (e *Engine) scheduleEntries(si *SchedInfo, model map[string]uint64) []Sched
 	var out []SchedEntry
 	for _, fr := range si.Fires {
 		if Eval(fr.Fire, model, memo) != 0 {
-			auto := fr.Phase > 0 || strings.Contains(fr.Pos, "zz_verif_ab_rt_common.go") || !strings.Contains(fr.Pos, ".go:")
-			out = append(out, SchedEntry{Pos: fr.Pos, Phase: fr.Phase, Gor: fr.Idx, Auto: auto})
+			wake := fr.Phase > 0 && strings.Contains(fr.Op, "(*sync.Cond).Wait")
+			auto := !wake && (fr.Phase > 0 || strings.Contains(fr.Pos, "zz_verif_ab_rt_common.go") || !strings.Contains(fr.Pos, ".go:"))
+			out = append(out, SchedEntry{Pos: fr.Pos, Phase: fr.Phase, Gor: fr.Idx, Auto: auto, Wake: wake})
 		}
 	}
 	return out
